@@ -257,7 +257,128 @@ def gen_zderived(rng, face2=False):
                                             branches=branch, face2=face2)
 
 
-GENS = [gen_azimuth, gen_hdiff, gen_vector, gen_zderived]
+
+def gen_intersection(rng):
+    """AcordIntersection::execute on a small network: known points, 1..3 points without xy, each tied by one of the
+    constructions ApproxPoint knows (two outer bearings, bearing + distance, three distances, resection from
+    directions / angles at the new point, outer angle, azimuth from a known point, azimuth observed AT the new
+    point = the rule of fix 78a600d, slope distance with zenith angle or with heights), later points possibly
+    from earlier ones; directions of a stand-point carry a random circle orientation."""
+    hdr, cs, rh = head("intersection", rng)
+    xn = x_north(cs, rh)
+    nk = rng.randint(2, 4)
+    nu = rng.choice([1, 1, 2, 2, 3])
+    ids = pick_ids(rng, nk + nu)
+    known, unknown = ids[:nk], ids[nk:]
+    T = {i: coords(rng) for i in ids}
+    consistent = rng.random() < 0.8
+    bad = lambda v, k: v + rng.choice(k) if (not consistent and rng.random() < 0.35) else v
+    ori = {}
+    clusters = {}                   # station -> list of records (one stand-point per station)
+    branch = set()
+
+    def O(st):
+        if st not in ori:
+            ori[st] = rng.uniform(0, TWO_PI)
+        return ori[st]
+
+    def add(st, rec):
+        clusters.setdefault(st, []).append(rec)
+
+    def direction(f, t):
+        add(f, f"dir {f} {t} {H(bad((brg(T[f], T[t]) - O(f)) % TWO_PI, [2e-3, -0.05, 1.0]) % TWO_PI)}")
+
+    def distance(a, b):
+        f, t = (a, b) if rng.random() < 0.5 else (b, a)
+        for _ in range(rng.choice([1, 1, 1, 2])):
+            add(f, f"d {f} {t} {H(bad(hd(T[f], T[t]), [0.3, -0.05]))}")
+
+    def orient(st, have):
+        # a known station is oriented by at least one direction to another point with coordinates
+        others = [k for k in have if k != st]
+        for t in rng.sample(others, min(len(others), rng.choice([1, 1, 2]))):
+            direction(st, t)
+
+    have = list(known)
+    zknown = {i for i in ids if rng.random() < 0.5}
+    for x in unknown:
+        kinds = ["dirdir", "dirdist", "dist3", "resect", "angles", "outer", "az", "azrev", "sdza", "sdz", "dist2", "dirang"]
+        if len(have) < 3:
+            kinds = [k for k in kinds if k not in ("dist3", "resect", "angles", "dirang")]
+        k = rng.choice(kinds)
+        branch.add(k)
+        a, b = rng.sample(have, 2)
+        if k == "dirdir":
+            for s in (a, b):
+                orient(s, have); direction(s, x)
+        elif k == "dirdist":
+            orient(a, have); direction(a, x); distance(b if rng.random() < 0.7 else a, x)
+        elif k == "dist3":
+            for s in rng.sample(have, 3):
+                distance(s, x)
+        elif k == "dist2":
+            distance(a, x); distance(b, x)
+        elif k == "resect":
+            for t in rng.sample(have, min(len(have), rng.choice([3, 3, 4]))):
+                direction(x, t)
+        elif k == "angles":
+            tg = rng.sample(have, 3)
+            for (p, q) in ((tg[0], tg[1]), (tg[1], tg[2])):
+                if rng.random() < 0.3:
+                    p, q = q, p
+                add(x, f"ang {x} {p} {q} {H(bad((brg(T[x], T[q]) - brg(T[x], T[p])) % TWO_PI, [3e-3, 0.5]) % TWO_PI)}")
+            if rng.random() < 0.4:
+                direction(x, tg[0]); direction(x, tg[1])
+        elif k == "dirang":
+            tg = rng.sample(have, 3)
+            orient(tg[0], have); direction(tg[0], x)
+            add(x, f"ang {x} {tg[1]} {tg[2]} {H((brg(T[x], T[tg[2]]) - brg(T[x], T[tg[1]])) % TWO_PI)}")
+        elif k == "outer":
+            # an angle observed at a known point between a known point and the new one (either arm) + a distance
+            if rng.random() < 0.5:
+                add(a, f"ang {a} {b} {x} {H(bad((brg(T[a], T[x]) - brg(T[a], T[b])) % TWO_PI, [0.02]) % TWO_PI)}")
+            else:
+                add(a, f"ang {a} {x} {b} {H((brg(T[a], T[b]) - brg(T[a], T[x])) % TWO_PI)}")
+            distance(rng.choice([a, b]), x)
+        elif k == "az":
+            add(a, f"az {a} {x} {H(bad((brg(T[a], T[x]) - xn) % TWO_PI, [0.01, 1.0]) % TWO_PI)}")
+            distance(rng.choice([a, b]), x)
+        elif k == "azrev":
+            add(x, f"az {x} {a} {H(bad((brg(T[x], T[a]) - xn) % TWO_PI, [0.01]) % TWO_PI)}")
+            if rng.random() < 0.5:
+                distance(a, x); distance(b, x)
+            else:
+                distance(b, x)
+                if rng.random() < 0.5:
+                    orient(a, have); direction(a, x)
+        else:                                           # slope distance: with a zenith angle / with both heights
+            orient(a, have); direction(a, x)
+            f, t = (a, x) if rng.random() < 0.5 else (x, a)
+            dz = T[t][2] - T[f][2]
+            h = hd(T[f], T[t])
+            if k == "sdza":
+                add(f, f"sd {f} {t} {H(math.hypot(h, dz))} {H(0.0)} {H(0.0)}")
+                add(f, f"za {f} {t} {H(math.atan2(h, dz))} {H(0.0)} {H(0.0)}")
+            else:
+                zknown |= {f, t}
+                add(f, f"sd {f} {t} {H(bad(math.hypot(h, dz), [0.2]))} {H(0.0)} {H(0.0)}")
+        if rng.random() < 0.7:
+            have.append(x)                              # the next point may be tied to this one
+    recs = []
+    for i in ids:
+        if i in known or rng.random() < 0.8:
+            recs.append(P(i, T[i], i in known, i in zknown, 1 if i in unknown else rng.random() < 0.9, rng.random() < 0.6))
+    sts = list(clusters)
+    rng.shuffle(sts)
+    for st in sts:
+        obs = clusters[st]
+        if rng.random() < 0.5:
+            rng.shuffle(obs)
+        recs.append(f"S {st} " + " ".join(obs))
+    return hdr + " " + " ".join(recs), dict(alg="intersection", truth=T, consistent=consistent, branches=branch)
+
+
+GENS = [gen_azimuth, gen_hdiff, gen_vector, gen_zderived, gen_intersection, gen_intersection]
 
 
 def gen(rng):
